@@ -9,7 +9,7 @@ From TS Require Model.Writer.
 From TS Require Import Spec.C12Spec.
 From TS Require Proofs.C02_Witness.
 From TS Require Import Proofs.C14Witness Proofs.C12Obs Proofs.C12Multi.
-From TS Require Import Spec.C17Spec Proofs.C12MultiGo Proofs.C12MultiSwift Proofs.C12MultiStateless.
+From TS Require Import Model.Lang.TypeScript Spec.C17Spec Spec.C12TSSpec Proofs.C12MultiGo Proofs.C12MultiSwift Proofs.C12MultiStateless Proofs.C12MultiTS.
 Import ListNotations.
 Local Open Scope string_scope.
 Local Open Scope list_scope.
@@ -251,6 +251,27 @@ Example c12_multi_kotlin_nonvacuous :
        Ok ([lit "Serializable"], [lit "Serializable"; lit "SerialName"])].
 Proof.
   do 3 eexists. split; [vm_compute; reflexivity|]. repeat (split; [vm_compute; reflexivity|]). vm_compute; reflexivity.
+Qed.
+
+(* ---------------------------------------------------------------- TypeScript (workspace ws_py_plain: only crate alpha has
+   a member of a translated type, `at: Date`): alpha.ts ends with ReviverFunc / ReplacerFunc handling Date; beta.ts
+   has no such member and carries the same trailer (the map is not cleared) *)
+Definition y_ts_cfg : ts_config := C02_Witness.c02_w_ts_cfg.
+Definition y_beta_ts : str :=
+  [ch_nl] ++ ln "export interface Plain {" ++ tln "n: number;" ++ ln "}" ++ [ch_nl] ++ ts_end_file [(lit "Date", [lit "at"])].
+Example c12_multi_typescript_nonvacuous :
+  exists plan p_alpha p_beta t_alpha ds_alpha ds_beta,
+    y_plan TypeScript ws_py_plain = Some plan /\ plan = [p_alpha; p_beta] /\
+    generate_crates (ts_multi_gen uc_exec y_ts_cfg) [] plan =
+      ([(lit "alpha.ts", Writer.Generated t_alpha); (lit "beta.ts", Writer.Generated y_beta_ts)], Ok [(lit "Date", [lit "at"])]) /\
+    ts_multi_decls uc_exec y_ts_cfg [] (op_data p_alpha) = Ok (ds_alpha, [(lit "Date", [lit "at"])]) /\
+    c12_ts_translated ds_alpha = [lit "Date"] /\ c12_ts_good ds_alpha [(lit "Date", [lit "at"])] = true /\
+    c12_ts_good ds_alpha [] = false /\
+    ts_multi_decls uc_exec y_ts_cfg [(lit "Date", [lit "at"])] (op_data p_beta) = Ok (ds_beta, [(lit "Date", [lit "at"])]) /\
+    c12_ts_translated ds_beta = [] /\ c12_ts_defs [(lit "Date", [lit "at"])] = c12_ts_helpers.
+Proof.
+  do 6 eexists. split; [vm_compute; reflexivity|]. split; [reflexivity|].
+  repeat (split; [vm_compute; reflexivity|]). vm_compute; reflexivity.
 Qed.
 
 Example c12_multi_scala_nonvacuous :
